@@ -228,7 +228,7 @@ theorem C07_labels (c : Nat) (acc : List Nat → Bool) (ref : Nat) (t : List Nat
     · rw [List.getElem?_eq_none h] at hp; cases hp
   rw [hps, List.getElem?_map] at hp
   have hz : ((split (w c) (140 - 1 - concatLen ref) t).zipIdx)[i]? = some ((split (w c) (140 - 1 - concatLen ref) t)[i]'(by omega), i) := by
-    rw [List.getElem?_eq_getElem (by simp; omega), List.getElem_zipIdx]
+    rw [List.getElem?_eq_getElem (by rw [List.length_zipIdx]; omega), List.getElem_zipIdx]
     simp
   rw [hz] at hp
   simp only [Option.map_some, Option.some.injEq] at hp
@@ -260,24 +260,22 @@ theorem sound_single_octet (c : Nat) (hc : c = 1 ∨ c = 3 ∨ c = 6 ∨ c = 7) 
 
 /-- UCS-2: 2 octets in the BMP, 4 beyond -/
 theorem sound_ucs2 (s : List Nat) : (Smpp.Coding.encUcs2 s).length ≤ len (w 8) s := by
-  have : (Smpp.Coding.encUcs2 s).length * 8 = bits (w 8) s := by
+  have : (Smpp.Coding.encUcs2 s).length * 8 ≤ bits (w 8) s := by
     induction s with
-    | nil => rfl
+    | nil => simp [Smpp.Coding.encUcs2, bits]
     | cons r s ih =>
       simp only [Smpp.Coding.encUcs2, List.flatMap_cons, List.length_append] at ih ⊢
-      rw [bits_cons, Nat.add_mul, ih, Smpp.Coding.utf16be_length]
-      simp only [w, width]
-      by_cases h : r < 65536
-      · have : (decide (r ≤ 0xD7FF) || (decide (0xE000 ≤ r) && decide (r ≤ 0xFFFF))) = true ∨
-            (decide (r ≤ 0xD7FF) || (decide (0xE000 ≤ r) && decide (r ≤ 0xFFFF))) = false := by
-          cases (decide (r ≤ 0xD7FF) || (decide (0xE000 ≤ r) && decide (r ≤ 0xFFFF))) <;> simp
-        rcases this with h1 | h1
-        · simp [h, h1]
-        · -- a surrogate code point: not a scalar value; the splitter says 32, UTF-16 cannot carry it
+      rw [bits_cons, Nat.add_mul, Smpp.Coding.utf16be_length]
+      have hw : (if r < 65536 then 2 else 4) * 8 ≤ w 8 r := by
+        simp only [w, width]
+        by_cases h : r < 65536
+        · simp only [h, ↓reduceIte]
+          -- BMP scalar: 16 = 16; a surrogate code point (not a scalar value): the splitter says 32
+          simp; split <;> omega
+        · have h1 : (decide (r ≤ 0xD7FF) || (decide (0xE000 ≤ r) && decide (r ≤ 0xFFFF))) = false := by
+            simp only [Bool.or_eq_false_iff, Bool.and_eq_false_iff, decide_eq_false_iff_not]; omega
           simp [h, h1]
-      · have h1 : (decide (r ≤ 0xD7FF) || (decide (0xE000 ≤ r) && decide (r ≤ 0xFFFF))) = false := by
-          simp only [Bool.or_eq_false_iff, Bool.and_eq_false_iff, decide_eq_false_iff_not]; omega
-        simp [h, h1]
+      omega
   unfold len; omega
 
 /-- GSM 7-bit: ⌈7n/8⌉ octets for n septets, extension characters counting twice on both sides -/
@@ -315,7 +313,7 @@ theorem sound_gsm7 (s sept : List Nat) (hs : Smpp.Gsm7.toSeptets gsmReverse gsmE
             exact List.mem_map.mpr ⟨p, h1, h2⟩
           have hw14 : w 0 r = 14 := by
             rw [← ext_is_escape_table] at hmem
-            simp [w, width, List.contains_iff_mem.mpr hmem]
+            simp [w, width, hmem]
           simp only [List.length_cons]; omega
         | none => simp [he] at hs
   unfold len; omega
